@@ -1153,6 +1153,9 @@ h_HLPwrite(void)
     g_is_special    = 1;
     H4V_HAVOC(int, g_sub_may_fail);
     H4V_HAVOC(int, g_htp_may_fail);
+#ifdef H4V_NOFAULT /* fault-free variant: much cheaper; fault propagation is covered by the variants without it */
+    g_sub_may_fail = g_htp_may_fail = 0;
+#endif
     H4V_ND(int32, length);
     H4V_ASSUME(g_posn0 >= 0 && g_posn0 <= H4V_MAXPOS && length >= -1 && length <= H4V_MAXPOS);
     /* bound: the write ends inside the H4V_NT tables modelled (missing tables up to that number are created) */
